@@ -9,6 +9,7 @@ package main
 
 import (
 	"fmt"
+	"regexp"
 	"go/ast"
 	"go/token"
 	"sort"
@@ -28,6 +29,46 @@ type gm struct {
 	pkgs        map[string]bool   // imported package names
 	unsupported []string
 	cur         string
+	scopes      []map[string]string // source name -> name in the embedding (a shadowing declaration is renamed)
+	nshadow     int
+}
+
+func (g *gm) push() { g.scopes = append(g.scopes, map[string]string{}) }
+func (g *gm) pop()  { g.scopes = g.scopes[:len(g.scopes)-1] }
+
+// resolve: the embedding's name of a source identifier (innermost declaration).
+func (g *gm) resolve(name string) string {
+	for i := len(g.scopes) - 1; i >= 0; i-- {
+		if n, ok := g.scopes[i][name]; ok {
+			return n
+		}
+	}
+	return name
+}
+
+// declare: `name` is declared in the current scope (`:=`, `var`, range variable, parameter). Go's
+// block scoping is kept by renaming a declaration that shadows one of an enclosing scope.
+func (g *gm) declare(name string) string {
+	if name == "_" {
+		return "_"
+	}
+	cur := g.scopes[len(g.scopes)-1]
+	if n, ok := cur[name]; ok {
+		return n // `:=` with a variable already declared in THIS scope assigns it
+	}
+	shadows := false
+	for i := len(g.scopes) - 2; i >= 0; i-- {
+		if _, ok := g.scopes[i][name]; ok {
+			shadows = true
+		}
+	}
+	n := name
+	if shadows {
+		g.nshadow++
+		n = fmt.Sprintf("%s·%d", name, g.nshadow)
+	}
+	cur[name] = n
+	return n
 }
 
 func gmStr(s string) string {
@@ -127,7 +168,7 @@ func (g *gm) expr(e ast.Expr) string {
 		if v, ok := g.consts[x.Name]; ok {
 			return "(.int " + v + ")"
 		}
-		return "(.var " + strconv.Quote(x.Name) + ")"
+		return "(.var " + strconv.Quote(g.resolve(x.Name)) + ")"
 	case *ast.SelectorExpr:
 		if id, ok := x.X.(*ast.Ident); ok && g.pkgs[id.Name] {
 			return "(.var " + strconv.Quote(id.Name+"."+x.Sel.Name) + ")"
@@ -243,7 +284,12 @@ func (g *gm) call(c *ast.CallExpr) string {
 				if fl, ok := c.Args[1].(*ast.FuncLit); ok && len(fl.Type.Params.List) == 1 && len(fl.Type.Params.List[0].Names) == 1 &&
 					len(fl.Body.List) == 1 {
 					if rs, ok := fl.Body.List[0].(*ast.ReturnStmt); ok && len(rs.Results) == 1 {
-						return "(.search " + g.expr(c.Args[0]) + " " + strconv.Quote(fl.Type.Params.List[0].Names[0].Name) + " " + g.expr(rs.Results[0]) + ")"
+						n := g.expr(c.Args[0])
+						g.push()
+						pn := g.declare(fl.Type.Params.List[0].Names[0].Name)
+						pred := g.expr(rs.Results[0])
+						g.pop()
+						return "(.search " + n + " " + strconv.Quote(pn) + " " + pred + ")"
 					}
 				}
 				return "(.call " + g.bad("?sort.Search closure", c) + " [])"
@@ -258,11 +304,27 @@ func (g *gm) call(c *ast.CallExpr) string {
 }
 
 func (g *gm) block(ss []ast.Stmt) string {
+	g.push()
+	defer g.pop()
 	var out []string
 	for _, s := range ss {
 		out = append(out, g.stmt(s)...)
 	}
 	return "[" + strings.Join(out, ",\n      ") + "]"
+}
+
+// lhsDefine: the left-hand sides of `a, b := …` (declared in the current scope AFTER the right-hand
+// side has been translated, as in Go).
+func (g *gm) lhsDefine(lhs []ast.Expr) string {
+	var out []string
+	for _, e := range lhs {
+		if id, ok := e.(*ast.Ident); ok {
+			out = append(out, "(.var "+strconv.Quote(g.declare(id.Name))+")")
+		} else {
+			out = append(out, g.expr(e))
+		}
+	}
+	return "[" + strings.Join(out, ", ") + "]"
 }
 
 func (g *gm) optStmt(s ast.Stmt) string {
@@ -280,6 +342,12 @@ func (g *gm) stmt(s ast.Stmt) []string {
 		if c, ok := x.X.(*ast.CallExpr); ok && g.droppable(c) {
 			return []string{"(.skip " + gmStr(g.f.src(x)) + ")"}
 		}
+		if c, ok := x.X.(*ast.CallExpr); ok {
+			if id, ok := c.Fun.(*ast.Ident); ok && id.Name == "delete" && len(c.Args) == 2 {
+				m := g.expr(c.Args[0])
+				return []string{"(.assign [" + m + "] [(.call \"mapDelete\" [" + m + ", " + g.expr(c.Args[1]) + "])])"}
+			}
+		}
 		return []string{"(.expr " + g.expr(x.X) + ")"}
 	case *ast.DeferStmt:
 		if g.droppable(x.Call) {
@@ -288,8 +356,17 @@ func (g *gm) stmt(s ast.Stmt) []string {
 		return []string{"(.unsupported " + g.bad("defer", x) + ")"}
 	case *ast.AssignStmt:
 		switch x.Tok {
-		case token.ASSIGN, token.DEFINE:
+		case token.ASSIGN:
+			if ix, ok := commaOk(x); ok {
+				return []string{"(.assign " + g.exprs(x.Lhs) + " [(.call \"mapLookup2\" [" + g.expr(ix.X) + ", " + g.expr(ix.Index) + "])])"}
+			}
 			return []string{"(.assign " + g.exprs(x.Lhs) + " " + g.exprs(x.Rhs) + ")"}
+		case token.DEFINE:
+			rhs := g.exprs(x.Rhs)
+			if ix, ok := commaOk(x); ok {
+				rhs = "[(.call \"mapLookup2\" [" + g.expr(ix.X) + ", " + g.expr(ix.Index) + "])]"
+			}
+			return []string{"(.assign " + g.lhsDefine(x.Lhs) + " " + rhs + ")"}
 		default:
 			op := strings.TrimSuffix(x.Tok.String(), "=")
 			if len(x.Lhs) == 1 && len(x.Rhs) == 1 {
@@ -313,15 +390,16 @@ func (g *gm) stmt(s ast.Stmt) []string {
 			vs := sp.(*ast.ValueSpec)
 			if len(vs.Values) == 0 {
 				for _, n := range vs.Names {
-					out = append(out, "(.assign [.var "+strconv.Quote(n.Name)+"] ["+zeroExpr(vs.Type)+"])")
+					out = append(out, "(.assign [.var "+strconv.Quote(g.declare(n.Name))+"] ["+zeroExpr(vs.Type)+"])")
 				}
 				continue
 			}
+			rhs := g.exprs(vs.Values)
 			var lhs []string
 			for _, n := range vs.Names {
-				lhs = append(lhs, "(.var "+strconv.Quote(n.Name)+")")
+				lhs = append(lhs, "(.var "+strconv.Quote(g.declare(n.Name))+")")
 			}
-			out = append(out, "(.assign ["+strings.Join(lhs, ", ")+"] "+g.exprs(vs.Values)+")")
+			out = append(out, "(.assign ["+strings.Join(lhs, ", ")+"] "+rhs+")")
 		}
 		return out
 	case *ast.ReturnStmt:
@@ -338,13 +416,17 @@ func (g *gm) stmt(s ast.Stmt) []string {
 		}
 		return []string{"(.unsupported " + g.bad("branch", x) + ")"}
 	case *ast.BlockStmt:
-		// a nested block has no scope of its own in the embedding
+		g.push()
+		defer g.pop()
 		var out []string
 		for _, s := range x.List {
 			out = append(out, g.stmt(s)...)
 		}
 		return out
 	case *ast.IfStmt:
+		g.push() // the scope of the init statement spans the condition and both branches
+		defer g.pop()
+		init := g.optStmt(x.Init)
 		els := "[]"
 		switch e := x.Else.(type) {
 		case *ast.BlockStmt:
@@ -352,10 +434,16 @@ func (g *gm) stmt(s ast.Stmt) []string {
 		case *ast.IfStmt:
 			els = "[" + strings.Join(g.stmt(e), ", ") + "]"
 		}
-		return []string{"(.ite " + g.optStmt(x.Init) + " " + g.expr(x.Cond) + "\n      " + g.block(x.Body.List) + "\n      " + els + ")"}
+		return []string{"(.ite " + init + " " + g.expr(x.Cond) + "\n      " + g.block(x.Body.List) + "\n      " + els + ")"}
 	case *ast.ForStmt:
-		return []string{"(.forC " + g.optStmt(x.Init) + " " + g.optExpr(x.Cond) + " " + g.optStmt(x.Post) + "\n      " + g.block(x.Body.List) + ")"}
+		g.push()
+		defer g.pop()
+		finit := g.optStmt(x.Init)
+		return []string{"(.forC " + finit + " " + g.optExpr(x.Cond) + " " + g.optStmt(x.Post) + "\n      " + g.block(x.Body.List) + ")"}
 	case *ast.RangeStmt:
+		rx := g.expr(x.X)
+		g.push()
+		defer g.pop()
 		nm := func(e ast.Expr) string {
 			if e == nil {
 				return "none"
@@ -364,13 +452,20 @@ func (g *gm) stmt(s ast.Stmt) []string {
 				if id.Name == "_" {
 					return "none"
 				}
-				return "(some " + strconv.Quote(id.Name) + ")"
+				if x.Tok == token.DEFINE {
+					return "(some " + strconv.Quote(g.declare(id.Name)) + ")"
+				}
+				return "(some " + strconv.Quote(g.resolve(id.Name)) + ")"
 			}
 			return "(some " + g.bad("?range variable", e) + ")"
 		}
-		return []string{"(.forRange " + nm(x.Key) + " " + nm(x.Value) + " " + g.expr(x.X) + "\n      " + g.block(x.Body.List) + ")"}
+		k, v := nm(x.Key), nm(x.Value)
+		return []string{"(.forRange " + k + " " + v + " " + rx + "\n      " + g.block(x.Body.List) + ")"}
 	case *ast.SwitchStmt:
 		// switch [init;] [tag] { case a, b: …; default: … }  ->  if-chain (no fallthrough)
+		g.push()
+		defer g.pop()
+		swInit := g.optStmt(x.Init)
 		var cases []*ast.CaseClause
 		var def *ast.CaseClause
 		for _, c := range x.Body.List {
@@ -405,13 +500,40 @@ func (g *gm) stmt(s ast.Stmt) []string {
 			}
 			els = "[(.ite [] " + c + " " + g.block(cases[i].Body) + " " + els + ")]"
 		}
-		init := g.optStmt(x.Init)
-		if init != "[]" {
-			return []string{"(.ite " + init + " (.bool true) " + els + " [])"}
+		if swInit != "[]" {
+			return []string{"(.ite " + swInit + " (.bool true) " + els + " [])"}
 		}
 		return []string{"(.ite [] (.bool true) " + els + " [])"}
+	case *ast.SelectStmt:
+		// `select { case ch <- v: default: }` (non-blocking notification): an effect
+		var out []string
+		for _, c := range x.Body.List {
+			cc := c.(*ast.CommClause)
+			if len(cc.Body) != 0 {
+				return []string{"(.unsupported " + g.bad("select with a body", x) + ")"}
+			}
+			if cc.Comm == nil {
+				continue
+			}
+			ss, ok := cc.Comm.(*ast.SendStmt)
+			if !ok {
+				return []string{"(.unsupported " + g.bad("select receive", x) + ")"}
+			}
+			out = append(out, "(.expr (.call \"chan.trySend\" [(.str "+gmStr(g.f.src(ss.Chan))+")]))")
+		}
+		return out
 	}
 	return []string{"(.unsupported " + g.bad("statement", s) + ")"}
+}
+
+// commaOk: `v, ok := m[k]` / `v, ok = m[k]`.
+func commaOk(x *ast.AssignStmt) (*ast.IndexExpr, bool) {
+	if len(x.Lhs) == 2 && len(x.Rhs) == 1 {
+		if ix, ok := x.Rhs[0].(*ast.IndexExpr); ok {
+			return ix, true
+		}
+	}
+	return nil, false
 }
 
 // collectConsts: package-level `const name = <int literal>` of the given files.
@@ -445,6 +567,12 @@ func importedPkgs(f *file) map[string]bool {
 	for _, im := range f.f.Imports {
 		p, _ := strconv.Unquote(im.Path.Value)
 		name := p[strings.LastIndex(p, "/")+1:]
+		if m := regexp.MustCompile(`^v[0-9]+$`); m.MatchString(name) { // …/pkg/v2
+			q := p[:strings.LastIndex(p, "/")]
+			name = q[strings.LastIndex(q, "/")+1:]
+		}
+		name = strings.TrimSuffix(name, ".go") // github.com/nats-io/nats.go is package nats
+		name = strings.TrimPrefix(name, "go-")
 		if im.Name != nil {
 			name = im.Name.Name
 		}
@@ -482,14 +610,22 @@ func genGoMini(module string, order []string, units map[string][]string, constFi
 				continue
 			}
 			g := &gm{f: f, consts: consts, pkgs: importedPkgs(f), cur: fnName}
+			g.push()
 			recv := "none"
 			if fd.Recv != nil && len(fd.Recv.List) > 0 && len(fd.Recv.List[0].Names) > 0 {
-				recv = "(some " + strconv.Quote(fd.Recv.List[0].Names[0].Name) + ")"
+				recv = "(some " + strconv.Quote(g.declare(fd.Recv.List[0].Names[0].Name)) + ")"
 			}
 			var params []string
 			for _, p := range fd.Type.Params.List {
 				for _, n := range p.Names {
-					params = append(params, strconv.Quote(n.Name))
+					params = append(params, strconv.Quote(g.declare(n.Name)))
+				}
+			}
+			if fd.Type.Results != nil {
+				for _, p := range fd.Type.Results.List {
+					for _, n := range p.Names {
+						g.declare(n.Name) // named results (a bare `return` is outside the subset)
+					}
 				}
 			}
 			body := g.block(fd.Body.List)
@@ -536,5 +672,12 @@ func genGoMiniAll() []*leanFile {
 		[]string{cl + "util.go"},
 		map[string][]string{cl + "util.go": {"findSegment", "findSegmentContains", "findSegmentByBaseOffset", "roundDown"}},
 		clConsts)})
+	sv := "server/"
+	out = append(out, &leanFile{name: "GoPartition", raw: genGoMini("GoPartition",
+		[]string{sv + "partition.go"},
+		map[string][]string{sv + "partition.go": {
+			"partition.truncateUncommitted", "partition.truncateToHW", "partition.inReplicas", "partition.inISR",
+			"partition.RemoveFromISR", "partition.AddToISR"}},
+		[]string{sv + "partition.go"})})
 	return out
 }
